@@ -194,6 +194,9 @@ func (x *Exec) backup(op *Op) {
 			os.MkdirAll(x.bdir, 0o700) // Log.Backup needs the directory; klevdb.Backup creates it
 		}
 	}
+	if op.Arg != 1 && (x.opi+x.bgen)%2 == 0 {
+		standingClock(x.dir, x.bdir)
+	}
 	// cold (op.Var&2): the backup is the first call on the handle - no query has loaded (or rebuilt) anything yet
 	cold := op.Var&2 != 0
 	var before []string
@@ -315,6 +318,9 @@ func (x *Exec) backupClosed(op *Op) {
 		x.bdir = fmt.Sprintf("%s-backup%d", x.dir, x.bgen)
 		os.RemoveAll(x.bdir)
 	}
+	if op.Arg != 1 && (x.opi+x.bgen)%2 == 0 {
+		standingClock(x.dir, x.bdir)
+	}
 	err := klevdb.Backup(x.dir, x.bdir)
 	x.emit("backup", map[string]any{"err": errClass(err), "errs": errStr(err), "pkg": true, "fresh": op.Arg == 1, "closed": true})
 	if err != nil {
@@ -357,4 +363,23 @@ func dirContentSig(dir string) string {
 		fmt.Fprintf(&sb, "%s:%d:%x ", e.Name(), len(b), sha256.Sum256(b))
 	}
 	return sb.String()
+}
+
+// standingClock (C20, after seeded change S144): a file system whose timestamps did not advance since the previous
+// backup - every source file that the target already holds gets the target copy's modification time (which is the
+// source's time as of that backup). The skip rule of the copy must not rely on the clock alone: KlevBackup.tla lets
+// the logical clock stand still between two writes (negative control backup_no_size), this is the same on real files.
+func standingClock(src, dst string) {
+	es, err := os.ReadDir(src)
+	if err != nil {
+		return
+	}
+	for _, e := range es {
+		if e.IsDir() || e.Name() == ".lock" {
+			continue
+		}
+		if st, err := os.Stat(filepath.Join(dst, e.Name())); err == nil {
+			os.Chtimes(filepath.Join(src, e.Name()), st.ModTime(), st.ModTime())
+		}
+	}
 }
